@@ -646,26 +646,7 @@ void Builder::Cleanup() {
 
     for (vector<Edge*>::iterator e = active_edges.begin();
          e != active_edges.end(); ++e) {
-      string depfile = (*e)->GetUnescapedDepfile();
-      for (vector<Node*>::iterator o = (*e)->outputs_.begin();
-           o != (*e)->outputs_.end(); ++o) {
-        // Only delete this output if it was actually modified.  This is
-        // important for things like the generator where we don't want to
-        // delete the manifest file if we can avoid it.  But if the rule
-        // uses a depfile, always delete.  (Consider the case where we
-        // need to rebuild an output because of a modified header file
-        // mentioned in a depfile, and the command touches its depfile
-        // but is interrupted before it touches its output file.)
-        string err;
-        TimeStamp new_mtime = disk_interface_->Stat((*o)->path(), &err);
-        if (new_mtime == -1)  // Log and ignore Stat() errors.
-          status_->Error("%s", err.c_str());
-        if (!depfile.empty() || (*o)->mtime() != new_mtime)
-          disk_interface_->RemoveFile((*o)->path());
-        VERIF_CRASH_POINT("cleanup-between-output-removals");
-      }
-      if (!depfile.empty())
-        disk_interface_->RemoveFile(depfile);
+      CleanupInterruptedEdge(*e);
     }
   }
 
@@ -673,6 +654,29 @@ void Builder::Cleanup() {
   VERIF_CRASH_POINT("cleanup-before-lock-removal");
   if (disk_interface_->Stat(lock_file_path_, &err) > 0)
     disk_interface_->RemoveFile(lock_file_path_);
+}
+
+void Builder::CleanupInterruptedEdge(Edge* edge) {
+  string depfile = edge->GetUnescapedDepfile();
+  for (vector<Node*>::iterator o = edge->outputs_.begin();
+       o != edge->outputs_.end(); ++o) {
+    // Only delete this output if it was actually modified.  This is
+    // important for things like the generator where we don't want to
+    // delete the manifest file if we can avoid it.  But if the rule
+    // uses a depfile, always delete.  (Consider the case where we
+    // need to rebuild an output because of a modified header file
+    // mentioned in a depfile, and the command touches its depfile
+    // but is interrupted before it touches its output file.)
+    string err;
+    TimeStamp new_mtime = disk_interface_->Stat((*o)->path(), &err);
+    if (new_mtime == -1)  // Log and ignore Stat() errors.
+      status_->Error("%s", err.c_str());
+    if (!depfile.empty() || (*o)->mtime() != new_mtime)
+      disk_interface_->RemoveFile((*o)->path());
+    VERIF_CRASH_POINT("cleanup-between-output-removals");
+  }
+  if (!depfile.empty())
+    disk_interface_->RemoveFile(depfile);
 }
 
 Node* Builder::AddTarget(const string& name, string* err) {
@@ -804,9 +808,13 @@ ExitStatus Builder::Build(string* err) {
       if (result.interrupted() || result.exit_status() == ExitInterrupted) {
         // A command that itself ended with the interrupt status is no longer
         // known to the command runner: give its job slot back here.
-        if (result.command_completed() && jobserver_.get()) {
-          jobserver_->Release(
-              std::move(result.GetCommandCompleted().edge->job_slot_));
+        if (result.command_completed()) {
+          Edge* interrupted_edge = result.GetCommandCompleted().edge;
+          if (jobserver_.get())
+            jobserver_->Release(std::move(interrupted_edge->job_slot_));
+          // It was interrupted like the commands Cleanup() is about to kill:
+          // remove what it had already written, too.
+          CleanupInterruptedEdge(interrupted_edge);
         }
         Cleanup();
         status_->BuildFinished();
